@@ -80,6 +80,9 @@ def specOp (toks expect : List String) (impl : List String) : List String :=
              if Spec.stack Spec.isViaName we == Spec.stack Spec.isViaName wo &&
                 Spec.stack Spec.isRouteName we == Spec.stack Spec.isRouteName wo then [] else [s!"{id} routing-headers-changed"]
            | _, _ => [s!"{id} unreadable"])
+    | "robust" =>
+      (if impl.head? == some "panic" then [s!"{id} panic-{impl.getD 1 "?"}"] else []) ++
+      (if impl.any (fun t => t.startsWith "alloc=big") then [s!"{id} allocation-out-of-proportion-{impl.getLastD "?"}"] else [])
     | "reenc" =>     -- decode-then-encode is byte-identical: impl = ok <input> ...
       match toks, impl with
       | _ :: _ :: inp :: _, "ok" :: enc :: _ => if enc == inp then [] else [s!"{id} re-encoding-differs"]
@@ -107,7 +110,9 @@ partial def loop (ops impl : Array String) (i : Nat) (st : DrvState) (out : IO.F
     let mut s := specs
     -- "# weak": outside every domain; only crash-freedom is compared
     let weak := (line.splitOn " # ").any (fun seg => (words seg).head? == some "weak")
-    let differs := if modelOut == "skip" then false
+    let differs := if implLine == "not-run" then false
+      else if implLine.startsWith "process-died" then true
+      else if modelOut == "skip" then false
       else if weak then implLine.startsWith "panic" || implLine == "<missing>"
       else modelOut != implLine
     if differs then
@@ -119,7 +124,11 @@ partial def loop (ops impl : Array String) (i : Nat) (st : DrvState) (out : IO.F
     -- several oracles may be chained with " # "
     let segs := (line.splitOn " # ").drop 1
     let mut st'' := st'
-    for seg in segs do
+    if implLine.startsWith "process-died" then
+      -- whatever was being processed killed the whole process: a C08 violation with this op as replay
+      IO.println s!"SPEC {i + 1} C08 {implLine.replace " " "-"}"
+      s := s + 1
+    for seg in (if implLine == "not-run" || implLine.startsWith "process-died" then [] else segs) do
       -- `spec=<id> remember <tag>` / `spec=<id> sameas <tag>`: two ops must have the same implementation output
       if (words seg).getD 1 "" == "remember" then
         st'' := { st'' with prevOut := ((words seg).getD 2 "?", implLine) :: st''.prevOut.take 2000 }
